@@ -20,7 +20,6 @@ package main
 //  `hx c19-genfacts -out DIR` regenerates LockFacts.lean (by hand, after an intended change of the facts).
 
 import (
-	"context"
 	"encoding/json"
 	"fmt"
 	"os"
@@ -28,6 +27,7 @@ import (
 	"path/filepath"
 	"sort"
 	"strings"
+	"syscall"
 	"time"
 )
 
@@ -52,24 +52,24 @@ func c19(c *Ctx) {
 		fmt.Sscan(v, &rounds)
 	}
 	if rounds > 0 {
-		c19RunHammer(c, os.Args[0], "c19-hammer", "plain", rounds, 240*time.Second)
-		c19RunHammer(c, os.Args[0], "c19-maprace", "maprace", 3, 120*time.Second)
+		c19RunHammer(c, os.Args[0], "c19-hammer", "plain", rounds, c19ChildLimit())
+		c19RunHammer(c, os.Args[0], "c19-maprace", "maprace", 3, c19ChildLimit())
 		cr := 6
 		if c.Tier == "thorough" {
 			cr = 20
 		}
-		c19RunHammer(c, os.Args[0], "c19-confirmrace", "confirmrace", cr, 240*time.Second)
+		c19RunHammer(c, os.Args[0], "c19-confirmrace", "confirmrace", cr, c19ChildLimit())
 		mi := 2
 		if c.Tier == "thorough" {
 			mi = 5
 		}
-		c19RunHammer(c, os.Args[0], "c19-mineinsert", "mineinsert", mi, 240*time.Second)
-		c19RunHammer(c, os.Args[0], "c19-restart", "restart", 1, 240*time.Second)
+		c19RunHammer(c, os.Args[0], "c19-mineinsert", "mineinsert", mi, c19ChildLimit())
+		c19RunHammer(c, os.Args[0], "c19-restart", "restart", 1, c19ChildLimit())
 		ls := 3000
 		if c.Tier == "thorough" {
 			ls = 30000
 		}
-		c19RunHammer(c, os.Args[0], "c19-lastsig", "lastsig", ls, 240*time.Second)
+		c19RunHammer(c, os.Args[0], "c19-lastsig", "lastsig", ls, c19ChildLimit())
 	}
 	if c.Tier == "thorough" && os.Getenv("VERIF_C19_NORACE") == "" {
 		c19Race(c)
@@ -87,15 +87,36 @@ func c19RunHammer(c *Ctx, exe, sub, mode string, rounds int, timeout time.Durati
 		c.Count("hammer-" + mode + ":inconclusive:cannot-create-stderr-file")
 		return "", false
 	}
-	ctx, cancel := context.WithTimeout(context.Background(), timeout)
-	defer cancel()
-	cmd := exec.CommandContext(ctx, exe, sub, "-seed", fmt.Sprint(c.Seed), "-n", fmt.Sprint(rounds), "-tier", c.Tier, "-out", dir)
+	cmd := exec.Command(exe, sub, "-seed", fmt.Sprint(c.Seed), "-n", fmt.Sprint(rounds), "-tier", c.Tier, "-out", dir)
 	cmd.Stderr = ef
 	cmd.Stdout = ef
 	tmp := filepath.Join(dir, "tmp") // node data directories of the child; removed even when it dies
 	os.MkdirAll(tmp, 0755)
 	cmd.Env = append(os.Environ(), "GORACE=halt_on_error=0 history_size=7", "TMPDIR="+tmp)
-	runErr := cmd.Run()
+	// The child has its own per-round watchdog (c19RoundLimit); this outer limit only catches a child that is stuck
+	// outside a round.  On expiry the child gets SIGQUIT first: the Go runtime dumps every goroutine to stderr.
+	timedOut := false
+	t0 := time.Now()
+	runErr := cmd.Start()
+	if runErr == nil {
+		waitCh := make(chan error, 1)
+		go func() { waitCh <- cmd.Wait() }()
+		select {
+		case runErr = <-waitCh:
+		case <-time.After(timeout):
+			timedOut = true
+			cmd.Process.Signal(syscall.SIGQUIT)
+			select {
+			case runErr = <-waitCh:
+			case <-time.After(20 * time.Second):
+				cmd.Process.Kill()
+				runErr = <-waitCh
+			}
+		}
+	}
+	if sec := int(time.Since(t0).Seconds()); sec > c.Stats["hammer-"+mode+":max-child-seconds"] {
+		c.Stats["hammer-"+mode+":max-child-seconds"] = sec
+	}
 	ef.Close()
 	os.RemoveAll(tmp)
 	raw, _ := os.ReadFile(errFile)
@@ -112,18 +133,29 @@ func c19RunHammer(c *Ctx, exe, sub, mode string, rounds int, timeout time.Durati
 		if strings.HasPrefix(k, "hammer:") {
 			k = "hammer-" + mode + ":" + strings.TrimPrefix(k, "hammer:")
 		}
+		if strings.HasSuffix(k, ":max-round-ms") {
+			k = "hammer-" + mode + ":max-round-ms"
+			if v > c.Stats[k] {
+				c.Stats[k] = v
+			}
+			continue
+		}
 		c.Stats[k] += v
 	}
 	c.Stats["hammer-"+mode+":rounds-completed"] += res.Completed
 	c.Stats["hammer-"+mode+":rounds-inconclusive(timeout)"] += res.Inconclusive
 	for _, f := range res.Fails {
-		c.Fail(f.Sig, fmt.Sprintf("[%s hammer, round %d, seed %d] %s", mode, f.Round, c.Seed, f.Detail), map[string]interface{}{"rerun": fmt.Sprintf("hx %s -seed %d -n %d -out DIR", sub, c.Seed, rounds)})
+		replay := map[string]interface{}{"rerun": fmt.Sprintf("hx %s -seed %d -n %d -out DIR", sub, c.Seed, rounds)}
+		if strings.HasPrefix(f.Sig, "c19/deadlock-or-timeout/") && res.Dump != "" {
+			replay["goroutine_dump"] = res.Dump
+		}
+		c.Fail(f.Sig, fmt.Sprintf("[%s hammer, round %d, seed %d] %s", mode, f.Round, c.Seed, f.Detail), replay)
 	}
 	switch {
-	case ctx.Err() != nil:
-		// the whole child timed out: inconclusive, never a failure
-		c.Count("hammer-" + mode + ":inconclusive:child-timeout")
-	case runErr != nil && !res.Done:
+	case timedOut:
+		// the whole child exceeded its limit: a deadlock or a hang is a FAILURE (SIGQUIT dump of all goroutines as replay)
+		c.Fail("c19/deadlock-or-timeout/"+sub, fmt.Sprintf("[%s hammer, seed %d] child %s did not finish within %v (completed rounds: %d); goroutines blocked inside /repo: %s", mode, c.Seed, sub, timeout, res.Completed, c19BlockedSummary(text)), map[string]interface{}{"goroutine_dump": c19TrimDump(text)})
+	case runErr != nil && !res.Done && !c19HasDeadlockFail(res):
 		// the process died: Go fatal error (concurrent map read/write …) or an unrecovered panic in an engine goroutine
 		kind := "exit"
 		first := ""
@@ -218,6 +250,26 @@ func c19Facts(c *Ctx) {
 	}
 	c.Op(fmt.Sprintf("rmw-split-end %d", len(splits)), "ok")
 	c.Count(fmt.Sprintf("fact:rmw-split:%d", len(splits)))
+	// lock leaks (a return path that keeps a lock) and the lock-order graph (a cycle = possible deadlock)
+	if c19LastScan != nil {
+		leaks := c19LastScan.lockLeaks()
+		for _, l := range leaks {
+			c.Op("lock-leak "+l.A+" "+l.B, "ok")
+			if !inList(l.A, c19KnownLockLeaks) {
+				c.Fail("c19/lock-leak/"+l.A, l.A+" takes "+l.B+" and can return still holding it (no deferred Unlock, no Unlock on that path): the next acquirer blocks forever", nil)
+			}
+		}
+		c.Op(fmt.Sprintf("lock-leak-end %d", len(leaks)), "ok")
+		edges := c19LastScan.lockOrder()
+		for _, e := range edges {
+			c.Op("lock-order "+e.A+" "+e.B, "ok")
+		}
+		c.Op(fmt.Sprintf("lock-order-end %d", len(edges)), "ok")
+		c.Count(fmt.Sprintf("fact:lock-order-edges:%d", len(edges)))
+		if _, bad := c19LockRank(edges); bad != nil {
+			c.Fail("c19/lock-order-cycle/"+bad.A+"~"+bad.B, "the lock-order graph has a cycle through "+bad.A+" → "+bad.B+" (one thread takes them in this order, another in the opposite one, or a non-reentrant mutex is re-acquired): possible deadlock", nil)
+		}
+	}
 	for _, k := range order {
 		rs := bad[k]
 		v := k[:strings.Index(k, "/")]
@@ -392,6 +444,44 @@ def rmwSplits : List (String × String) := [` + func() string {
 		return strings.Join(q, ", ")
 	}() + `]
 
+/-- functions that can return still holding a lock they took (expected: only the deliberate lock-handing wrapper) -/
+def lockLeaks : List (String × String) := [` + func() string {
+		var q []string
+		if c19LastScan != nil {
+			for _, l := range c19LastScan.lockLeaks() {
+				q = append(q, fmt.Sprintf("(%q, %q)", l.A, l.B))
+			}
+		}
+		return strings.Join(q, ", ")
+	}() + `]
+
+/-- lock-order edges (A, B): B is taken while A may be held (A held at the Lock() statement or by some caller path);
+    at least one of the two is a lock of chain/consensus, store, chain/deputynode.  (A, A) = per-TYPE re-acquisition
+    (different instances / over-approximated interface calls). -/
+def lockOrder : List (String × String) := [
+` + func() string {
+		var q []string
+		if c19LastScan != nil {
+			for _, e := range c19LastScan.lockOrder() {
+				q = append(q, fmt.Sprintf("  (%q, %q)", e.A, e.B))
+			}
+		}
+		return strings.Join(q, ",\n")
+	}() + `
+]
+
+/-- a topological order of the locks: every edge of lockOrder other than the (A, A) ones goes forward in it -/
+def lockRank : List String := [` + func() string {
+		var q []string
+		if c19LastScan != nil {
+			rank, _ := c19LockRank(c19LastScan.lockOrder())
+			for _, r := range rank {
+				q = append(q, fmt.Sprintf("%q", r))
+			}
+		}
+		return strings.Join(q, ", ")
+	}() + `]
+
 /-- head reads that are deliberately made before the chain lock is taken (see the header) -/
 def benignPrechecks : List String := [` + func() string {
 		var q []string
@@ -446,4 +536,23 @@ func c19DynCalls() []c19Dyn {
 	}
 	sort.Slice(out, func(i, j int) bool { return out[i].fn < out[j].fn })
 	return out
+}
+
+// c19ChildLimit: outer limit of one child process (all its rounds).  Observed on /repo: the slowest plain child takes
+// < 60 s, the slowest child under the race detector < 120 s on a loaded machine; the limit is 30 min.
+func c19ChildLimit() time.Duration {
+	limit := 1800
+	if v := os.Getenv("VERIF_C19_CHILD_LIMIT_S"); v != "" {
+		fmt.Sscan(v, &limit)
+	}
+	return time.Duration(limit) * time.Second
+}
+
+func c19HasDeadlockFail(res c19HResult) bool {
+	for _, f := range res.Fails {
+		if strings.HasPrefix(f.Sig, "c19/deadlock-or-timeout/") {
+			return true
+		}
+	}
+	return false
 }
